@@ -19,6 +19,7 @@ from .common import ExecBase, Scratch, Violation, short_hash
 
 PROP = "C17"
 LEVEL = "fault_enumeration"
+CHUNK = {"quick": 5, "thorough": 5}
 KEEP_LAST_OP = False
 RULE = ("A case is one execution of a seeded history over one worklist object and one real scratch directory "
         "(appends of every record type, save to str/Path, repeated saves, clear, with-blocks left normally or by "
